@@ -220,6 +220,23 @@ Definition url_slhdsa_pub := "type.googleapis.com/google.crypto.tink.SlhDsaPubli
 Definition url_slhdsa_priv := "type.googleapis.com/google.crypto.tink.SlhDsaPrivateKey".
 Definition url_mldsa_priv := "type.googleapis.com/google.crypto.tink.MlDsaPrivateKey".
 Definition url_jwt_mldsa_priv := "type.googleapis.com/google.crypto.tink.JwtMlDsaPrivateKey".
+Definition url_composite_pub := "type.googleapis.com/google.crypto.tink.CompositeMlDsaPublicKey".
+Definition url_composite_priv := "type.googleapis.com/google.crypto.tink.CompositeMlDsaPrivateKey".
+
+(* ---- composite ML-DSA: proto/composite_ml_dsa.proto CompositeMlDsaClassicalAlgorithm;
+   internal/signature/compositemldsa/util.go ParametersForClassicalAlgorithm ---- *)
+Definition calg_ed25519 : N := 1.
+Definition calg_ecdsa_p256 : N := 2.
+Definition calg_ecdsa_p384 : N := 3.
+Definition calg_ecdsa_p521 : N := 4.
+Definition calg_rsa3072_pss : N := 5.
+Definition calg_rsa4096_pss : N := 6.
+Definition calg_rsa3072_pkcs1 : N := 7.
+Definition calg_rsa4096_pkcs1 : N := 8.
+Definition comp_rsa_bits_a : N := 3072.
+Definition comp_rsa_bits_b : N := 4096.
+Definition comp_pss_salt_a : N := 32.              (* with SHA256 *)
+Definition comp_pss_salt_b : N := 48.              (* with SHA384 *)
 
 (* ---- the registered key types outside the 16 that model/Secrets.v (C13) was
    built on: C13 keeps deciding keysets that hold one of them by its direct
@@ -254,13 +271,13 @@ Definition c13_outside_urls : list string := (
 
 (* ---- type URLs that have a registered key parser (RegisterKeyParser) which
    this model does not transcribe; keysets containing them are decided by the
-   direct check only: the composite ML-DSA and PRF-based-deriver keys nest
-   another key / key template.  (ML-DSA and JWT ML-DSA private keys are
+   direct check only: the PRF-based deriver key nests a key TEMPLATE that goes
+   through protoserialization.ParseParameters, i.e. the parameters parsers of
+   every key type, none of which this model transcribes.  (The composite ML-DSA
+   keys, which nest key data, are transcribed.  ML-DSA and JWT ML-DSA private keys are
    transcribed: the public key of a seed is asked of the stdlib record, field
    mldsa_pub, answered at run time by the library's own ML-DSA key generation -
    the Go standard library has none - which is trusted for that one function;
    C10 is the property about it.) ---- *)
 Definition unmodelled_urls : list string := (
-  "type.googleapis.com/google.crypto.tink.PrfBasedDeriverKey" ::
-  "type.googleapis.com/google.crypto.tink.CompositeMlDsaPublicKey" ::
-  "type.googleapis.com/google.crypto.tink.CompositeMlDsaPrivateKey" :: nil)%list.
+  "type.googleapis.com/google.crypto.tink.PrfBasedDeriverKey" :: nil)%list.
